@@ -22,7 +22,7 @@ import (
 type fastPath struct {
 	name  string
 	roots []string // module-relative package "." function
-	needs []string // "NonGreedy", "FoldCase", "RepeatBounds"
+	needs []string // "NonGreedy", "FoldCase", "RepeatBounds", "DotNL"
 	why   string
 }
 
@@ -37,14 +37,16 @@ var fastPaths = []fastPath{
 		"per-branch byte matcher: ^(?i)(foo|bar) must accept FOO; ^(foo+?|bar) is lazy"},
 	{"first-byte rejection filter", []string{"nfa.ExtractFirstBytes"}, []string{"FoldCase"},
 		"256-entry first-byte table: (?i)^hello$ must not reject 'hello'"},
-	{"AnchoredLiteral", []string{"meta.DetectAnchoredLiteral"}, []string{"FoldCase"},
-		"byte-wise prefix/suffix comparison: (?i)^/.*\\.php$ must accept /x.php"},
+	{"AnchoredLiteral", []string{"meta.DetectAnchoredLiteral"}, []string{"FoldCase", "DotNL"},
+		"byte-wise prefix/suffix comparison, wildcard by skipping: (?i)^/.*\\.php$ must accept /x.php; ^/.*\\.php$ must reject /a\\nb.php, (?s)^/.*\\.php$ must accept it"},
 	{"ReverseSuffix/ReverseSuffixSet", []string{"meta.isSafeForReverseSuffix"}, []string{"NonGreedy"},
 		"span end chosen as the last suffix / leftmost-longest DFA end: .*?\\.(txt|log|md) on a.txt.txt"},
-	{"ReverseSuffix '.*' fast path", []string{"meta.isDotStarLiteral"}, []string{"NonGreedy", "FoldCase"},
+	{"ReverseSuffix '.*' fast path", []string{"meta.isDotStarLiteral"}, []string{"NonGreedy", "FoldCase", "DotNL"},
 		"returns [line start, last literal occurrence] without an automaton"},
 	{"ReverseInner", []string{"meta.isSafeForReverseInner"}, []string{"NonGreedy"},
 		"span end from a leftmost-longest forward DFA: .*?error.*? on 'an error here error'"},
+	{"ReverseInner whole-haystack span", []string{"meta.isUniversalMatch", "meta.endsWithUniversalMatch", "meta.isDotAllStar", "meta.isLiteralThenDotAllStar"}, []string{"DotNL"},
+		"returns [start, len(haystack)] without a scan: right for (?s).*lit(?s).*, wrong for .*lit.* on x\\nlit\\ny"},
 	{"MultilineReverseSuffix", []string{"meta.isSafeForMultilineReverseSuffix"}, []string{"NonGreedy"},
 		"span end chosen as the suffix occurrence reached by a greedy line scan"},
 }
@@ -54,6 +56,8 @@ type funcFacts struct {
 	readsFlag  map[string]bool // "NonGreedy", "FoldCase"
 	readsField map[string]bool // "Min", "Max", "Rune", "Flags"
 	callees    []*types.Func
+	// dotSeparated: a comparison (or case clause) selects OpAnyChar or OpAnyCharNotNL without the other one next to it
+	dotSeparated bool
 }
 
 func collectFuncFacts(pk *packages.Package, fd *ast.FuncDecl) *funcFacts {
@@ -70,6 +74,84 @@ func collectFuncFacts(pk *packages.Package, fd *ast.FuncDecl) *funcFacts {
 		}
 		return c.Name(), true
 	}
+	// dot discrimination: collect the logical groups (operands of one ||/&& chain, entries of one case clause) in which
+	// the two dot operators are mentioned
+	dotOf := func(e ast.Expr) string {
+		be, ok := e.(*ast.BinaryExpr)
+		if !ok || (be.Op != token.EQL && be.Op != token.NEQ) {
+			return ""
+		}
+		for _, side := range []ast.Expr{be.X, be.Y} {
+			if nm, ok := isSyntaxConst(side); ok && (nm == "OpAnyChar" || nm == "OpAnyCharNotNL") {
+				return nm
+			}
+		}
+		return ""
+	}
+	var chain func(e ast.Expr, out *[]string)
+	chain = func(e ast.Expr, out *[]string) {
+		switch x := e.(type) {
+		case *ast.ParenExpr:
+			chain(x.X, out)
+		case *ast.BinaryExpr:
+			if x.Op == token.LOR || x.Op == token.LAND {
+				chain(x.X, out)
+				chain(x.Y, out)
+				return
+			}
+			if d := dotOf(x); d != "" {
+				*out = append(*out, d)
+			}
+		}
+	}
+	inChain := map[ast.Node]bool{}
+	ast.Inspect(fd.Body, func(n ast.Node) bool {
+		switch x := n.(type) {
+		case *ast.BinaryExpr:
+			if inChain[x] {
+				return true
+			}
+			if x.Op == token.LOR || x.Op == token.LAND {
+				// mark the whole chain as visited
+				var mark func(e ast.Expr)
+				mark = func(e ast.Expr) {
+					switch y := e.(type) {
+					case *ast.ParenExpr:
+						mark(y.X)
+					case *ast.BinaryExpr:
+						inChain[y] = true
+						if y.Op == token.LOR || y.Op == token.LAND {
+							mark(y.X)
+							mark(y.Y)
+						}
+					}
+				}
+				mark(x)
+				var ds []string
+				chain(x, &ds)
+				seen := map[string]bool{}
+				for _, d := range ds {
+					seen[d] = true
+				}
+				if len(seen) == 1 {
+					ff.dotSeparated = true
+				}
+			} else if d := dotOf(x); d != "" {
+				ff.dotSeparated = true
+			}
+		case *ast.CaseClause:
+			seen := map[string]bool{}
+			for _, e := range x.List {
+				if nm, ok := isSyntaxConst(e); ok && (nm == "OpAnyChar" || nm == "OpAnyCharNotNL") {
+					seen[nm] = true
+				}
+			}
+			if len(seen) == 1 {
+				ff.dotSeparated = true
+			}
+		}
+		return true
+	})
 	ast.Inspect(fd.Body, func(n ast.Node) bool {
 		switch x := n.(type) {
 		case *ast.CaseClause:
@@ -132,8 +214,8 @@ func takesRegexp(f *types.Func) bool {
 func init() {
 	core.Register(&core.Rule{
 		Name: "R-DISTINGUISH",
-		Doc: "Each fast-path family (an applicability predicate or constructor of a special-purpose searcher plus every function over the syntax tree it reaches) must read the datum that distinguishes patterns it would otherwise treat alike: if it compares re.Op with OpStar/OpPlus/OpQuest/OpRepeat it must read Flags&syntax.NonGreedy (x+ and x+? differ in no other field); if it reads Rune of a node it matched as OpLiteral it must read Flags&syntax.FoldCase (abc vs (?i)abc); if it matches OpRepeat it must read both Min and Max. A family that never reads the field returns the same answer for both patterns and is wrong for one of them. Necessary for C19 (fast paths exact on everything they accept) and C02.",
-		Min: 14,
+		Doc: "Each fast-path family (an applicability predicate or constructor of a special-purpose searcher plus every function over the syntax tree it reaches) must read the datum that distinguishes patterns it would otherwise treat alike: if it compares re.Op with OpStar/OpPlus/OpQuest/OpRepeat it must read Flags&syntax.NonGreedy (x+ and x+? differ in no other field); if it reads Rune of a node it matched as OpLiteral it must read Flags&syntax.FoldCase (abc vs (?i)abc); if it matches OpRepeat it must read both Min and Max; if it implements a dot wildcard by skipping bytes it must tell OpAnyChar from OpAnyCharNotNL. A family that never reads the field returns the same answer for both patterns and is wrong for one of them. Necessary for C19 (fast paths exact on everything they accept) and C02.",
+		Min: 16,
 		Run: func(p *core.Prog) *core.RuleResult {
 			res := &core.RuleResult{}
 			facts := map[*types.Func]*funcFacts{}
@@ -190,10 +272,14 @@ func init() {
 					}
 				}
 				ops, flags, fields := map[string]bool{}, map[string]bool{}, map[string]bool{}
+				dotSeparated := false
 				var members []string
 				for f := range fam {
 					members = append(members, f.Name())
 					ff := facts[f]
+					if ff.dotSeparated {
+						dotSeparated = true
+					}
 					for k := range ff.ops {
 						ops[k] = true
 					}
@@ -237,6 +323,18 @@ func init() {
 						default:
 							o.Status = core.Violated
 							o.Detail = fp.name + " family consumes the runes of OpLiteral nodes but never reads Flags&syntax.FoldCase: abc and (?i)abc are indistinguishable to it"
+						}
+					case "DotNL":
+						switch {
+						case !ops["OpAnyCharNotNL"] && !ops["OpAnyChar"]:
+							o.Status = core.Discharged
+							o.Detail = "family does not match a dot operator"
+						case dotSeparated:
+							o.Status = core.Discharged
+							o.Detail = "family tells OpAnyChar from OpAnyCharNotNL (one of them is selected without the other)"
+						default:
+							o.Status = core.Violated
+							o.Detail = fp.name + " family mentions the dot operators only together (Op == OpAnyChar || Op == OpAnyCharNotNL): '.' and '(?s).' are indistinguishable to it, so a wildcard it implements by skipping bytes either crosses '\\n' for both or for neither"
 						}
 					case "RepeatBounds":
 						switch {
